@@ -2,6 +2,7 @@ import GnarkVerif.Model.Util
 import GnarkVerif.Model.Sha256
 import GnarkVerif.Model.Transcript
 import GnarkVerif.Model.FieldOps
+import GnarkVerif.Model.FFT
 /-
 Line-protocol driver: one op per input line, one canonical result per output line.
 The Go harness runs the real implementation on the same lines; bin/check diffs the two streams.
@@ -13,6 +14,7 @@ def handleLine (line : String) : String :=
   | "SHA256" :: [m] => bytesToHex (Sha256.hash (parseBytes m))
   | "C01" :: rest => FieldOps.handle rest
   | "C15" :: "sha256" :: rest => Transcript.handle Sha256.hash rest
+  | "C10" :: rest => FFT.handle rest
   | _ => "bad-op"
 
 partial def loop (h : IO.FS.Stream) (out : IO.FS.Stream) : IO Unit := do
